@@ -222,6 +222,20 @@ def run(tier):
                                                       'label': it['label']},
                           'expected': {'spec': so, 'model': mr}, 'observed': gr, 'why': why, 'spec': 'PegSem!Parse + agreement'},
                          key=c['ebnf'] + why[:25] + it['label'])
+    # code -> spec: executions of generated parsers (and of the model, for the same cases) recorded through the Tracer seam and validated
+    # against PegTrace in the matching flavour: option order, backtracking, cuts, memo replays and the value of every rule
+    from ..pegcheck import trace_validate
+    tcases = []
+    step = 14 if tier == 'quick' else 3
+    for k, (it, g) in enumerate(list(zip(items, marked))[ck.seed % step::step]):
+        if it['settings'].get('parseinfo') or g.get('keywords'):
+            continue
+        cfg = make_cfg(chars_of(g, it['texts']), **it['cfg'])
+        cfg.update({'maxmiss': 100000, 'prune': True, 'memoize': True})
+        texts = [''.join(t) for t in it['texts']][::2]
+        for backend in ('gen', 'model'):
+            tcases.append({'ebnf': to_ebnf(it['g']), 'g': it['g'], 'cfg': cfg, 'texts': texts, 'settings': it['settings'], 'backend': backend})
+    trace_validate(ck, tcases, label='C02 generated and model executions')
     ck.cov['distinct_nontrivial'] = len(seen)
     ck.cov['rule'] = (f'{len(gs)} grammars (every expression with <=1 operator node over 9 leaves, a slice of those with 2, seeded random '
                       'core-language grammars, special grammars: token rules, keyword-like rule names, parameters, dict-method names, @name) '
